@@ -244,6 +244,16 @@ def check(ck):
         ck.require(ident, "C09.3", "%s: failure decided by `is None`" % q.fn(fw), "identity test of the stored exception with None",
                    "wait() decides between raising and returning by the truthiness of the stored exception (`%s`): an exception object that is "
                    "falsy (defines __bool__ / __len__) is not re-raised, the failed task reports a result" % [dump(t_) for (t_, _p) in gds_], q.loc(fw, rz_))
+    # no exit of wait() avoids that test: a fast path returning before it reports a failed task as a plain result
+    dw_ = dominators(gw)
+    exc_tests = [n for n in gw.live_nodes() if n.kind in ("branch", "test") and EF["exception"] in dump(n.test if n.kind == "branch" else n.ast)]
+    for rn_ in [n for n in gw.live_nodes() if n.kind == "return"]:
+        v_ = rn_.ast.value if rn_.ast is not None else None
+        const_false = isinstance(v_, ast.Constant) and v_.value in (False, None)
+        dom_ok = any(t_.id in dw_[rn_.id] for t_ in exc_tests)
+        ck.require(dom_ok or const_false, "C09.3", "%s: `%s` after the exception test" % (q.fn(fw), q.stmt_text(rn_)[:40]), "dominated by the test of the stored exception",
+                   "wait() can return `%s` without having looked at the stored exception (a fast path placed before the test): result() of a "
+                   "task that raised then returns None instead of raising" % (dump(v_)[:40] if v_ is not None else "None"), q.loc(fw, rn_))
     ck.require(okk, "C09.3", "%s: raises the stored exception object" % q.fn(fw), "`raise self.%s`" % EF["exception"],
                "EventData.wait does not raise the stored exception object itself", q.loc(fw, fw.node))
     for cname, meths in (("EventData", ("wait", "data", "exception", "is_set")), ("FutureResult", ("result", "done"))):
